@@ -15,7 +15,7 @@ COMMON_TRUST = [
 
 # A property is claimed in MANIFEST as soon as some part supplies a `text` for it.
 NOT_APPLICABLE = {}
-HOOK_COMMITS = ["ad35b42"]
+HOOK_COMMITS = ["ad35b42", "817258c"]
 
 
 def load_parts():
